@@ -81,8 +81,13 @@ let macro_id_s = function
   | M_write_all -> "write_all" | M_symlink -> "symlink" | M_remove -> "remove" | M_remove_all -> "remove_all" | M_copyfile -> "copyfile"
 let rec index_of x l i = match l with [] -> -1 | y :: r -> if x = y then i else index_of x r (i + 1)
 
+(* reference filesystem next to the mirror: calls the reference covered / all calls / disagreements (written beside the output by the driver) *)
+let ref_covered = ref 0
+let ref_total = ref 0
+let ref_bad = ref 0
+
 let run_hist ?(two = false) (env : (n list * n list) list) (ops : string list) : string =
-  let rec go m ops acc =
+  let rec go m t ops acc =
     match ops with
     | [] -> String.concat "\t" (List.rev acc) ^ "\t#" ^ snapshot m
     | o :: rest when String.length o > 6 && String.sub o 0 6 = "macro:" ->
@@ -93,8 +98,8 @@ let run_hist ?(two = false) (env : (n list * n list) list) (ops : string list) :
         let mode = if g 4 = "" then 0 else int_of_string (g 4) in
         let b = if g 1 = "read_all" || g 1 = "write_all" then bytes_of_hex (g 3) else arg_str (g 3) in
         (match api_macro env m (n_of_int idx) (arg_str (g 2)) b (n_of_int mode) with
-         | Done (m', Pass) -> go m' rest ("pass" :: acc)
-         | Done (m', Panics (name, _)) -> go m' rest (("panic:assert_vfs_" ^ macro_id_s name ^ "!") :: acc)
+         | Done (m', Pass) -> go m' (api_ref_of m') rest ("pass" :: acc)
+         | Done (m', Panics (name, _)) -> go m' (api_ref_of m') rest (("panic:assert_vfs_" ^ macro_id_s name ^ "!") :: acc)
          | Panic -> String.concat "\t" (List.rev ("PANIC" :: acc))
          | OutOfFuel -> String.concat "\t" (List.rev ("HANG" :: acc)))
     | o :: rest ->
@@ -109,11 +114,18 @@ let run_hist ?(two = false) (env : (n list * n list) list) (ops : string list) :
                | _ -> true)
           | _ -> true in
         (match api_mfs_step env m pop with
-         | Done (m', r) -> go m' rest (((if sw_ok then "" else "!SWSPEC ") ^ result_s r) :: acc)
+         | Done (m', r) ->
+             (* the reference tree filesystem on its own tree: same value, same tree (Memfs/RefineHistory.v history_refines) *)
+             incr ref_total;
+             let (ref_ok, t') = match api_ref_step env t pop with
+               | Some (t1, r1) -> incr ref_covered; ((r1 = r && api_tree_list t1 = api_tree_list (api_ref_of m')), t1)
+               | None -> (true, api_ref_of m') in
+             if not ref_ok then incr ref_bad;
+             go m' (if ref_ok then t' else api_ref_of m') rest (((if sw_ok then "" else "!SWSPEC ") ^ (if ref_ok then "" else "!REFSPEC ") ^ result_s r) :: acc)
          | Panic -> String.concat "\t" (List.rev ("PANIC" :: acc))
          | OutOfFuel -> String.concat "\t" (List.rev ("HANG" :: acc)))
   in
-  go api_mfs_init ops []
+  go api_mfs_init api_ref_init ops []
 
 (* breadth-first enumeration: every (reachable state, call) of the alphabet up to a depth *)
 let bfs (env : (n list * n list) list) (alphabet : string list) (depth : int) (maxstates : int) (oc : out_channel) (envs : string) =
